@@ -586,13 +586,16 @@ been initialized
             if not animation:
                 raise
         finally:
-            output.write("\n")
-            if hide_cursor:
-                output.write(SHOW_CURSOR)
-            output.flush()
-            if not_echo_input:
-                termios.tcsetattr(output_fd, termios.TCSANOW, old_attr)
-            render_data.finalize()
+            try:
+                output.write("\n")
+                if hide_cursor:
+                    output.write(SHOW_CURSOR)
+                output.flush()
+            finally:
+                # Must not be skipped even if writing to the stream is interrupted
+                if not_echo_input:
+                    termios.tcsetattr(output_fd, termios.TCSANOW, old_attr)
+                render_data.finalize()
 
     def render(
         self,
